@@ -413,10 +413,11 @@ class Tree:
         See Node's :meth:`~nutree.node.Node.copy_to` and :ref:`iteration-callbacks`
         method for details.
         """
-        if name is None:
-            name = f"Copy of {self}"
-        new_tree = self.__class__(name)
         with self:
+            # Also read our name inside the critical section
+            if name is None:
+                name = f"Copy of {self}"
+            new_tree = self.__class__(name)
             new_tree._root._add_from(self._root, predicate=predicate)
         return new_tree
 
